@@ -64,6 +64,9 @@ pub const STAGES: &[&str] = &[
     "GlyphStyles::new",              // 21
     "ift: patched font reparse",     // 22
     "composite graph: draw",         // 23
+    "Plan::new",                     // 24
+    "subset_font",                   // 25
+    "cff2 charstring: draw",         // 26
 ];
 
 /// Called by drivers immediately before a call into the code under test.
